@@ -81,6 +81,7 @@ class Writer(object):
         self.subst = {}          # id(sub-blueprint) -> text (let-bound names in scope)
         self.int_numeral_rationals = False   # write some rationals as (/ m n) although numerals are of sort Int
         self.annotate = False                # wrap some terms in (! t :named n ...)
+        self.annotations = []                # (term blueprint, [(attribute, expected value | None | Ellipsis = not judged)])
         self.nann = 0
 
     def pct(self, p):
@@ -178,8 +179,17 @@ class Writer(object):
             # (! t attributes) denotes t
             self.nann += 1
             self.tags.add("annotated-term")
-            s = "(! %s %s)" % (s, self.rnd.choice([":named ann!%d" % self.nann, ":weight 3 :named |ann %d|" % self.nann,
-                                                     ":origin (some (nested) s-expr) :named ann!%d" % self.nann]))
+            k = self.nann
+            attrs = self.rnd.choice([
+                [("named", "ann!%d" % k, "ann!%d" % k)],
+                [("weight", "3", "3"), ("named", "|ann %d|" % k, "ann %d" % k)],
+                [("origin", "(some (nested) s-expr)", Ellipsis), ("named", "ann!%d" % k, "ann!%d" % k)],
+                # attributes without a value, after / before / between attributes with one
+                [("named", "ann!%d" % k, "ann!%d" % k), ("lemma", None, None)],
+                [("lemma", None, None), ("named", "ann!%d" % k, "ann!%d" % k)],
+                [("weight", "3", "3"), ("flag-a", None, None), ("named", "|ann %d|" % k, "ann %d" % k), ("flag-b", None, None)]])
+            s = "(! %s %s)" % (s, " ".join(":%s%s" % (a, "" if txt is None else " " + txt) for (a, txt, _) in attrs))
+            self.annotations.append((t, [(a, v) for (a, _, v) in attrs]))
         return s
 
     def _term(self, t):
